@@ -298,6 +298,12 @@ pub fn run(ctx: &Ctx) -> Report {
         items.push((5, 0, vec![2, 0, 1, 3, 4], 2, 2, step5));
     }
     let r = par_run(ctx, &items, |_, (n, extra, o, cap, a, step)| run_config(*n, *extra, o, *cap, ctx, *step, *a));
+    // the exported unweighted counter (smooth over all manager variables + unit-weight count)
+    // on wide managers: counts up to 2^63 - 1 against the closed form
+    let wides: Vec<usize> = ctx.tier.pick(vec![8, 20, 33, 54, 60, 63], (4..=63).step_by(3).chain([63usize]).collect());
+    let w = par_run(ctx, &wides, |_, nv| crate::props::c18::wide_counts_keyed(*nv, "smooth:unweighted-count"));
+    rep.add_extra("wide_manager_model_counts", w.transitions);
+    rep.merge(w);
     let mid = r.extra.get("functions_skipping_a_non_bottom_level").and_then(|v| v.as_u64()).unwrap_or(0);
     rep.merge(r);
     rep.floor("functions whose diagram skips a non-bottom level", mid, 1);
@@ -312,6 +318,10 @@ pub fn run(ctx: &Ctx) -> Report {
 
 pub fn replay(_ctx: &Ctx, case: &Value) -> Report {
     let mut rep = Report::default();
+    if case["kind"].as_str() == Some("ffi_wide") {
+        rep.merge(crate::props::c18::wide_counts_keyed(case["n"].as_u64().unwrap_or(20) as usize, "smooth:unweighted-count"));
+        return rep;
+    }
     let n = case["n"].as_u64().unwrap_or(3) as usize;
     let extra = case["extra_vars"].as_u64().unwrap_or(0) as usize;
     let order: Vec<usize> = case["order"].as_array().map(|a| a.iter().filter_map(|x| x.as_u64()).map(|x| x as usize).collect()).unwrap_or_default();
